@@ -47,6 +47,18 @@ func collect() {
 	methodSource("p/mbapp", "bitMap", "get", "src_mb_bitget")
 	methodSource("p/mbapp", "bitMap", "set", "src_mb_bitset")
 
+	// C05 / C07: the channel methods the Channel model was written against
+	methodSource("p/p2pke", "Channel", "Deliver", "src_ch_deliver")
+	methodSource("p/p2pke", "Channel", "newResp", "src_ch_newresp")
+	methodSource("p/p2pke", "Channel", "proposeNewSession", "src_ch_propose")
+	methodSource("p/p2pke", "Channel", "onReadySession", "src_ch_onready")
+	methodSource("p/p2pke", "Channel", "checkKey", "src_ch_checkkey")
+	methodSource("p/p2pke", "Channel", "expireSessions", "src_ch_expire")
+	methodSource("p/p2pke", "Channel", "onRekey", "src_ch_onrekey")
+	methodSource("p/p2pke", "Channel", "onHandshake", "src_ch_onhandshake")
+	methodSource("p/p2pke", "Channel", "getOrInit", "src_ch_getorinit")
+	methodSource("p/p2pke", "Session", "readHandshake", "src_sess_readhandshake")
+
 	// C02 / C03 / C06: P2PKE constants and the readiness guards as truth tables
 	constInt("p/p2pke", "MaxNonce", "ke_max_nonce")
 	constInt("p/p2pke", "noncePostHandshake", "ke_nonce_post_handshake")
